@@ -49,6 +49,11 @@ func (r *Receiver) SegmentHandlerFunc(w http.ResponseWriter, req *http.Request) 
 	// Drop the first part that should be /upload or similar as specified by prefix.
 	path := strings.TrimPrefix(req.URL.Path, r.prefix)
 	slog.Debug("Trimmed path", "path", path)
+	if hasParentDirElement(path) {
+		slog.Error("Path leads out of the storage directory", "path", path)
+		http.Error(w, "Invalid path", http.StatusBadRequest)
+		return
+	}
 	if chName, ok := matchMPD(path); ok {
 		handleMPD(w, req, r.storage, chName)
 		return
@@ -373,6 +378,17 @@ func (r *Receiver) SegmentHandlerFunc(w http.ResponseWriter, req *http.Request) 
 		}
 	}
 	trD.nrSegsReceived++
+}
+
+// hasParentDirElement tells whether a URL path has a ".." element.
+// Channel and track names are used as directory names below the storage directory.
+func hasParentDirElement(path string) bool {
+	for _, part := range strings.Split(path, "/") {
+		if part == ".." {
+			return true
+		}
+	}
+	return false
 }
 
 func (r *Receiver) hasStream(s stream) bool {
